@@ -17,6 +17,13 @@
 (*   MoveDecorative        MoveDecorative() (decisions read Tokens only, which the    *)
 (*                         call does not change: one step)                            *)
 (*   LoopExit              the `while num_moved > 0` test of EquationReduction        *)
+(*   Recoef(x) / Extend(d, ic)   ParseString() of a SECOND block on the same solver   *)
+(*                         object (what Model.main() does when it is run again): the  *)
+(*                         first block with the literal of one equation changed       *)
+(*                         (5 -> 7, u + 1 -> u + 3, 2*u -> 4*u), or with one more     *)
+(*                         variable declared.  ParseString starts from nothing: the   *)
+(*                         state after it is the state a fresh object would have, and *)
+(*                         the reduction loop and Solve follow as for a first block.  *)
 (*   Solve(ss)             EquationSolver.SolveEquation() on the lists, under the     *)
 (*                         solver option that changes what a solve does:              *)
 (*                         ss = ParameterSolveInitialSteadyState (the k = 0 values    *)
@@ -72,6 +79,7 @@ CONSTANTS
     SteadyT,        \* ParameterInitialSteadyStateMaxTime used with the steady-state option; at least the
                     \* number of variables + 2, so that every chain of lags has settled by T - 1
     SolveOK(_, _),  \* SolveOK(ss, st): slice of the instance - is Solve(ss) offered in state st
+    EditOK(_, _),   \* EditOK(edit, st): slice of the instance - is this second block offered after the solve st
     AsFound_SubstitutesVarWithIC
                     \* TRUE  = the pinned code: FindExactMatches substitutes away a variable that
                     \*         carries an initial condition like any other alias
@@ -111,7 +119,7 @@ Den(d, val) ==
     CASE d.kind \in {"alias", "palias"} -> val[d.u]
       [] d.kind = "const"               -> d.n
       [] d.kind = "sum"                 -> val[d.u] + val[d.v]
-      [] d.kind = "inc"                 -> val[d.u] + 1
+      [] d.kind = "inc"                 -> val[d.u] + d.n
       [] d.kind = "time"                -> val[K]
       [] d.kind \in {"neg", "negs", "negb"} -> 0 - val[d.u]
       [] d.kind = "prod"                -> val[d.u] * val[d.v]
@@ -119,7 +127,7 @@ Den(d, val) ==
       [] d.kind = "quo"                 -> TruncDiv(val[d.u], val[d.v])
       [] d.kind = "sq"                  -> val[d.u] * val[d.u]
       [] d.kind = "nsq"                 -> 0 - val[d.u] * val[d.u]
-      [] d.kind = "dbl"                 -> 2 * val[d.u]
+      [] d.kind = "dbl"                 -> d.n * val[d.u]
       [] d.kind = "diff"                -> val[d.u] - val[d.v]
       [] OTHER                          -> Poison
 
@@ -252,23 +260,26 @@ VARIABLES phase,    \* "parse" | "find" | "move" | "loop" | "done" | "solved" | 
           ics,      \* self.InitialConditions (name -> int, NoIC = absent)
           pos,      \* index of the for-loop in FindExactMatches
           moved,    \* result of the last MoveDecorative
-          orig      \* the system as ParseString left it (history, for the invariants)
+          orig,     \* the system as ParseString left it (history, for the invariants)
+          blk,      \* 1 | 2: which block the solver object is working on
+          first     \* the declared lines of the first block once a second one was parsed (history)
 
-vars == << phase, solve, endo, deco, lagged, exo, all, toks, ics, pos, moved, orig >>
+vars == << phase, solve, endo, deco, lagged, exo, all, toks, ics, pos, moved, orig, blk, first >>
 
 NoSys == [endo |-> << >>, deco |-> << >>, lagged |-> << >>, exo |-> << >>, ics |-> EmptyFn]
 
 St == [phase |-> phase, solve |-> solve, endo |-> endo, deco |-> deco, lagged |-> lagged, exo |-> exo, all |-> all,
-       toks |-> toks, ics |-> ics, pos |-> pos, moved |-> moved, orig |-> orig]
+       toks |-> toks, ics |-> ics, pos |-> pos, moved |-> moved, orig |-> orig, blk |-> blk, first |-> first]
 
 Set(r) == /\ phase' = r.phase /\ solve' = r.solve /\ endo' = r.endo /\ deco' = r.deco /\ lagged' = r.lagged
           /\ exo' = r.exo /\ all' = r.all /\ toks' = r.toks /\ ics' = r.ics /\ pos' = r.pos
-          /\ moved' = r.moved /\ orig' = r.orig
+          /\ moved' = r.moved /\ orig' = r.orig /\ blk' = r.blk /\ first' = r.first
 
 SysOf(st) == [endo |-> st.endo, deco |-> st.deco, lagged |-> st.lagged, exo |-> st.exo, ics |-> st.ics]
 
 InitSt == [phase |-> "parse", solve |-> "none", endo |-> << >>, deco |-> << >>, lagged |-> << >>, exo |-> << >>,
-           all |-> EmptyFn, toks |-> EmptyFn, ics |-> EmptyFn, pos |-> 0, moved |-> 0, orig |-> NoSys]
+           all |-> EmptyFn, toks |-> EmptyFn, ics |-> EmptyFn, pos |-> 0, moved |-> 0, orig |-> NoSys,
+           blk |-> 1, first |-> << >>]
 
 ----------------------------------------------------------------------------
 (* ParseString, one equation *)
@@ -326,6 +337,26 @@ MoveOp(st) ==
 LoopExitOp(st) ==
     IF st.moved > 0 THEN [st EXCEPT !.phase = "find", !.pos = 1] ELSE [st EXCEPT !.phase = "done"]
 
+(* ParseString of a whole block (a sequence of [var, def, ic]) on an object in state st0 *)
+RECURSIVE ParseAllOp(_, _, _)
+ParseAllOp(st, decl, i) ==
+    IF i > Len(decl) THEN EndParseOp(st)
+    ELSE ParseAllOp(ParseLineOp(st, decl[i].var, decl[i].def, decl[i].ic), decl, i + 1)
+
+(* the lines of the current block, in declaration order (Vars order) *)
+OrigDefOf(st, x) ==
+    IF x \in SeqVars(st.orig.lagged) THEN D("lag", st.orig.lagged[LagOf(st.orig, x)].src, "", 0, << >>)
+    ELSE IF x \in SeqVars(st.orig.exo) THEN D("exo", "", "", 0, st.orig.exo[ExoOf(st.orig, x)].p)
+    ELSE st.orig.endo[CHOOSE i \in 1..Len(st.orig.endo) : st.orig.endo[i].var = x].def
+NOrigOf(st) == Len(st.orig.endo) - 1 + Len(st.orig.lagged) + Len(st.orig.exo)      \* without the parser's own t
+DeclOf(st) == [i \in 1..NOrigOf(st) |-> [var |-> Vars[i], def |-> OrigDefOf(st, Vars[i]), ic |-> st.orig.ics[Vars[i]]]]
+
+(* a second block on the same object: nothing of the first block survives ParseString *)
+ReparseOp(st, declB) == [ParseAllOp(InitSt, declB, 1) EXCEPT !.blk = 2, !.first = DeclOf(st)]
+
+RecoefDecl(decl, x) == [i \in 1..Len(decl) |-> IF decl[i].var = x THEN [decl[i] EXCEPT !.def.n = @ + 2] ELSE decl[i]]
+HasLiteral(d) == d.kind \in {"const", "inc", "dbl"}
+
 SolveOp(st, ss) == [st EXCEPT !.phase = "solved", !.solve = IF ss THEN "steady" ELSE "plain"]
 
 HasKind(st, kinds) == \E x \in DOMAIN st.orig.endo : st.orig.endo[x].def.kind \in kinds
@@ -376,7 +407,17 @@ LoopExit         == phase = "loop" /\ Set(LoopExitOp(St))
 (* (the steady-state option is not offered with a quotient: divisors are only known to be non-zero *)
 (*  in the periods of the ordinary solve; nor with a self-reference: the settling run works at a   *)
 (*  tolerance of 1e-4, too coarse to read integers off its result)                                 *)
-Solve(ss)        == phase = "done" /\ (ss => ~HasKind(St, {"quo", "self"})) /\ SolveOK(ss, St) /\ Set(SolveOp(St, ss))
+Recoef(x) ==
+    /\ phase = "solved" /\ blk = 1
+    /\ \E i \in 1..NOrigOf(St) : Vars[i] = x /\ HasLiteral(OrigDefOf(St, x))
+    /\ EditOK([op |-> "recoef", var |-> x, def |-> OrigDefOf(St, x), ic |-> NoIC], St)
+    /\ LET s == ReparseOp(St, RecoefDecl(DeclOf(St), x)) IN WellPosed(s.orig, s.all) /\ Set(s)
+Extend(d, ic) ==
+    /\ phase = "solved" /\ blk = 1 /\ NOrigOf(St) < Len(Vars)
+    /\ EditOK([op |-> "extend", var |-> Vars[NOrigOf(St) + 1], def |-> d, ic |-> ic], St)
+    /\ LET s == ReparseOp(St, Append(DeclOf(St), [var |-> Vars[NOrigOf(St) + 1], def |-> d, ic |-> ic]))
+       IN WellPosed(s.orig, s.all) /\ Set(s)
+Solve(ss)        == phase = "done" /\ (ss => ~HasKind(St, {"quo", "self"}) /\ blk = 1) /\ SolveOK(ss, St) /\ Set(SolveOp(St, ss))
 
 NDeclared == Len(endo) + Len(lagged) + Len(exo)
 
@@ -391,10 +432,15 @@ Next == \/ /\ phase = "parse"
         \/ MoveDecorative
         \/ LoopExit
         \/ \E ss \in BOOLEAN : Solve(ss)
+        \/ /\ phase = "solved" /\ blk = 1
+           /\ \/ \E i \in 1..Len(Vars) : Recoef(Vars[i])
+              \/ /\ NOrigOf(St) < Len(Vars)
+                 /\ \E d \in Options(NOrigOf(St) + 1), ic \in ICsAt[NOrigOf(St) + 1] : Extend(d, ic)
 
 Init == /\ phase = InitSt.phase /\ solve = InitSt.solve /\ endo = InitSt.endo /\ deco = InitSt.deco /\ lagged = InitSt.lagged
         /\ exo = InitSt.exo /\ all = InitSt.all /\ toks = InitSt.toks /\ ics = InitSt.ics
         /\ pos = InitSt.pos /\ moved = InitSt.moved /\ orig = InitSt.orig
+        /\ blk = InitSt.blk /\ first = InitSt.first
 
 Spec == Init /\ [][Next]_vars
 
@@ -440,6 +486,7 @@ OrigSolvable == (phase = "find" /\ pos = 1 /\ deco = << >>) =>
 TypeOK == /\ phase \in {"parse", "find", "move", "loop", "done", "solved", "error"}
           /\ solve \in {"none", "plain", "steady"}
           /\ (phase = "solved") = (solve # "none")
+          /\ blk \in {1, 2} /\ (blk = 1 => first = << >>)
           /\ moved \in 0..(Len(Vars) + 1)
           /\ pos \in 0..(Len(Vars) + 2)
 =============================================================================
